@@ -22,7 +22,7 @@ w("D1", "hash set remove of a chain head dropped the rest of the chain (fixed bb
 w("D2", "array set insert/take copied one element past the end of the slice (fixed 0abaeb6)", ["C05", "C03"],
   "aset type=A8u8 slots=4 vals=1,2,5,9",
   ["ins 9", "ins 5", "ins 1", "ins 2", "take 1", "rview", "take 9", "ins 9", "take 2"])
-w("D3", "growing a tree with recycled / never-used slots corrupted the free list (fixed 3b922bd)", ["C08", "C07", "C12", "C01"],
+w("D3", "growing a tree with recycled / never-used slots corrupted the free list (fixed 3b922bd)", ["C08", "C07", "C12", "C01", "C04"],
   "tree type=T32u64u64 slots=4 cap=4 max_slots=6 keys=1,2,10,11,12,13,14,15",
   ["init 4", "ins 1 1", "ins 2 2", "rem 1", "ext 2", "open", "rcap", "fill 100 8", "ins 10 10", "ins 11 11", "ins 12 12", "ins 13 13", "ins 14 14", "full", "ins 15 15", "rget 2"])
 w("D3b", "same, 8-bit index variant, never-used slots only", ["C08", "C07", "C12", "C01"],
@@ -34,7 +34,7 @@ w("D4b", "same, 8-bit index variant", ["C12", "C01"],
   "tree type=T8u8u8 slots=0 cap=0 keys=1,2", ["init 0", "ins 1 1", "rlen", "rem 1"])
 ops = ["init 255"] + [f"ins {k} {k % 251}" for k in range(255)] + ["full", "ins 255 0"] + \
       [f"rem {k}" for k in range(255)] + ["empty"] + [f"ins {k} {k % 7}" for k in range(254, -1, -1)] + ["full", "rlow", "ins 255 1"]
-w("D5", "u8 tree with capacity 255 overflowed the sequence on the last insertion (fixed e4f687a)", ["C12", "C07", "C01"],
+w("D5", "u8 tree with capacity 255 overflowed the sequence on the last insertion (fixed e4f687a)", ["C12", "C07", "C01", "C04", "C10"],
   "tree type=T8u8u8 slots=255 cap=255 keys=" + ",".join(str(k) for k in range(256)), ops)
 w("D6", "hash set contains divided by zero on an all-zero or capacity-zero set (fixed 91fcc3f)", ["C12", "C02"],
   "hset type=HU64 slots=3 cap=0 vals=0,1", ["rhas 1", "has 1", "iter", "rsize", "init 0", "rhas 1", "ins 1", "rem 1"])
